@@ -108,6 +108,11 @@ def build_inputs(tier):
         cases.append(("oprun", f"a {s} b\n"))
         cases.append(("oprun", f"a{s}b\n"))
     indents = ["if a:\n    b\n", "if a:\n\tb\n", "if a:\n  b\n  if c:\n\td\n", "if a:\n        b\n\tc\n", "if a:\n \tb\n", "if a:\n    b\n\x0c    c\n", "\x0cif a:\n    b\n", "if a:\n  b\n\n  c\n # x\nd\n", "if a:\n    b\n  # dedented comment\n    c\n", "if a: # c\n    b # d\n", "x = (1,\n# c\n\n   2)\n", "x = 1 \\\n    + 2\n", "if a:\n    b = [\n1,\n   2]\n    c\n", "def f():\n    if x:\n        y\n    z\nw\n", "class A:\n  def f(s):\n      pass\n  x = 1\n", "\n\n  \nx\n", "x = 1  # c\n# d\n", "if a:\n    pass\n  \n", "if a:\n    b\n\t\n"]
+    units = [" ", "  ", "    ", "\t", " \t", "  \t", "   \t", "\t ", "        ", "         ", "\t\t", "       \t", "\t    ", "          "]
+    for i1 in units:
+        for i2 in units:
+            indents.append(f"if a:\n{i1}if b:\n{i2}c\n{i1}d\ne\n")
+            indents.append(f"if a:\n{i1}b\n{i2}c\n")
     for s in indents:
         for lay in ("id", "crlf", "nofinal"):
             cases.append(("indent", mutate.layout(s, lay, r)))
